@@ -54,6 +54,23 @@ theorem C01_values_reach_destinations_partial (cfg : Cfg) (wf : cfg.WellFormed) 
   · intro i d v hi hv ht
     exact dests_denote hin he hi hv ht
 
+/-- **Exact keys always resolve** (the `Resolves` side conditions of `Spells` for exact spellings): in a
+    configuration whose keys do not clash — what `addArgument` guarantees — the short key of an
+    argument, typed as `-c`, and its long key, typed as `--word`, designate exactly that argument,
+    with abbreviations on or off and whatever other keys (also longer ones starting with `word`) are
+    defined, in any definition order. -/
+theorem C01_exact_keys_resolve (cfg : Cfg) (hd : Keys.Disjoint cfg.table) (i : Nat) (d : ArgDef)
+    (hi : cfg.args[i]? = some d) :
+    (∀ c, d.key.short = some c → c ≠ '\x00' → Resolves cfg (Key.ofChar c) i d) ∧
+    (d.key.long ≠ [] → Resolves cfg ⟨none, d.key.long⟩ i d) := by
+  constructor
+  · intro c hc h0
+    apply resolves_exact cfg hd i d hi (Key.ofChar c) (Or.inr rfl)
+    refine Or.inl ⟨by rw [hc]; rfl, ?_⟩
+    rw [hc]; simp [Key.ofChar, mkShort, h0]
+  · intro hl
+    exact resolves_exact cfg hd i d hi ⟨none, d.key.long⟩ (Or.inl rfl) (Or.inr (Or.inl ⟨hl, rfl⟩))
+
 /-- **Unused destinations keep their value**: an argument without a use has `denote … [] = init`. -/
 theorem C01_unused_keep (d : ArgDef) (init : DVal) : denote d init [] = init := rfl
 
